@@ -55,6 +55,7 @@ type Case struct {
 	Lifecycle bool          `json:"lifecycle"` // C17 mode: collisions, failures, malformed frames, close
 	HoldUs    int           `json:"hold_us,omitempty"` // the execution logger's Error takes this long: a failed run stays in flight
 	CloserDelayUs int       `json:"closer_delay_us,omitempty"` // every closeSubscription call is delayed at its entry (hook H6)
+	RerunDelayUs  int       `json:"rerun_delay_us,omitempty"`  // reactive.WriteThenReadDelay: an unsubscribe / close may land between invalidation and re-run
 }
 
 // closerDelay (nanoseconds) is read by the hook installed once in init: goroutines of an
@@ -307,7 +308,7 @@ func dump(outs []fakesock.Out) string {
 
 // Run executes the case.
 func Run(c Case) (res Result, sig string, err error) {
-	reactive.WriteThenReadDelay = 0
+	reactive.WriteThenReadDelay = time.Duration(c.RerunDelayUs) * time.Microsecond
 	SetCloserDelay(time.Duration(c.CloserDelayUs) * time.Microsecond)
 	st := newStore()
 	st.triggers = c.Triggers
@@ -880,5 +881,6 @@ func Gen(t *rapid.T, lifecycle bool) Case {
 		c.Triggers = append(c.Triggers, tr)
 	}
 	c.CloserDelayUs = rapid.SampledFrom([]int{0, 0, 0, 200, 1500}).Draw(t, "closerdelay")
+	c.RerunDelayUs = rapid.SampledFrom([]int{0, 0, 0, 300, 2000}).Draw(t, "rerundelay")
 	return c
 }
